@@ -1,3 +1,6 @@
+\* Impl = "asis" is the pinned code before the repair of fmtp.go (defaults keyed by ToLower): TLC is
+\* expected to report ModelSymmetric violated.  Documentation of the defect that was found; the
+\* current code is Impl = "intended" (all other configurations).
 CONSTANTS
   Impl = "asis"
   Clocks <- ClocksTiny
